@@ -1008,7 +1008,7 @@ impl ExtensionStore {
 
         if let Some(existing_extensions) = existing_extensions {
             let additional_extensions =
-                self.extend_existing_extensions(existing_extensions, &new_extensions_by_target);
+                self.extend_existing_extensions(existing_extensions, &new_extensions_by_target)?;
             if let Some(additional_extensions) = additional_extensions {
                 map_add_all_2(&mut new_extensions_by_target, additional_extensions);
             }
@@ -1040,7 +1040,7 @@ impl ExtensionStore {
         &mut self,
         extensions: Vec<Extension>,
         new_extensions: &HashMap<SimpleSelector, IndexMap<ComplexSelector, Extension>>,
-    ) -> Option<HashMap<SimpleSelector, IndexMap<ComplexSelector, Extension>>> {
+    ) -> SassResult<Option<HashMap<SimpleSelector, IndexMap<ComplexSelector, Extension>>>> {
         let mut additional_extensions: Option<
             HashMap<SimpleSelector, IndexMap<ComplexSelector, Extension>>,
         > = None;
@@ -1085,10 +1085,9 @@ impl ExtensionStore {
                 let with_extender = extension.clone().with_extender(complex.clone());
                 let existing_extension = sources.get(&complex);
                 if let Some(existing_extension) = existing_extension.cloned() {
-                    sources.get_mut(&complex).replace(
-                        &mut MergedExtension::merge(existing_extension.clone(), with_extender)
-                            .unwrap(),
-                    );
+                    let mut merged =
+                        MergedExtension::merge(existing_extension.clone(), with_extender)?;
+                    sources.get_mut(&complex).replace(&mut merged);
                 } else {
                     sources
                         .get_mut(&complex)
@@ -1122,7 +1121,7 @@ impl ExtensionStore {
                 sources.shift_remove(&extension.extender);
             }
         }
-        additional_extensions
+        Ok(additional_extensions)
     }
 
     /// Extend `extensions` using `new_extensions`.
